@@ -9,7 +9,7 @@ import numpy as np
 from scipy.optimize import least_squares
 
 from holopy.core.holopy_object import HoloPyObject
-from holopy.core.metadata import flat, make_subset_data
+from holopy.core.metadata import make_subset_data
 from holopy.scattering.errors import  MissingParameter
 from holopy.inference.result import FitResult, UncertainValue
 
@@ -61,9 +61,7 @@ class LeastSquaresScipyStrategy(HoloPyObject):
         if len(parameters) == 0:
             raise MissingParameter('at least one parameter to fit')
 
-        if self.npixels is None:
-            data = flat(data)
-        else:
+        if self.npixels is not None:
             data = make_subset_data(data, pixels=self.npixels)
         guess_lnprior = model.lnprior(model.initial_guess)
 
@@ -72,6 +70,9 @@ class LeastSquaresScipyStrategy(HoloPyObject):
                 parameters, rescaled_values)
             noise = model._find_noise(unscaled_values, data)
             residuals = model._residuals(unscaled_values, data, noise)
+            # least_squares needs a 1D array; the data keep their shape so
+            # that the result can be saved and reloaded
+            residuals = residuals.flatten()
             ln_prior = model._lnprior(unscaled_values) - guess_lnprior
             zscore_prior = np.sqrt(2 * -ln_prior)
             np.append(residuals, zscore_prior)
@@ -94,7 +95,9 @@ class LeastSquaresScipyStrategy(HoloPyObject):
 
         # timing decorator...
         d_time = time.time() - time_start
-        kwargs = {'intervals': intervals, 'minimizer_info': minimizer_info}
+        # a plain dict (OptimizeResult is a dict subclass) can be saved
+        kwargs = {'intervals': intervals,
+                  'minimizer_info': dict(minimizer_info)}
         return FitResult(data, model, self, d_time, kwargs)
 
     def minimize(self, parameters, residuals_function):
